@@ -245,3 +245,10 @@ Example registry_nonvacuous :
   let r := reg_run [RFor (3,0); RFor (3,5); RCancelOlder (3,1); RFor (3,0); RFor (4,0)] in
   live r = [(4,0); (3,5)] /\ ctx_done r (3,0) = true /\ ctx_done r (3,5) = false /\ fst (reg_for (3,0) r) = false.
 Proof. vm_compute. repeat split; reflexivity. Qed.
+
+(* after Shutdown every request is refused, however many follow and whatever else happens in between (the model's
+   operations are total functions: nothing is left locked; the registry engine watches the real ones return) *)
+Theorem refused_after_shutdown ops1 ops2 k : fst (reg_for k (reg_run (ops1 ++ RShutdown :: ops2))) = false.
+Proof.
+  apply for_fails_iff. left. rewrite has_shutdown_app. cbn [has_shutdown]. apply orb_true_r.
+Qed.
